@@ -436,6 +436,52 @@ theorem attracting_first (ε : K) (es : List (EigInfo K)) (i₀ : ℕ) (rest : L
 
 end ordered
 
+/-! ## the refinement of the fixed vectors (repaired `_fixpoint_data`) -/
+
+section refine
+variable {K : Type*} [Field K] [LinearOrder K] [IsStrictOrderedRing K] {n : ℕ}
+
+theorem mink_sum_left {k : ℕ} (c : Fin k → K) (b : Fin k → Fin (n + 1) → K) (y : Fin (n + 1) → K) :
+    mink (fun l => ∑ i, c i * b i l) y = ∑ i, c i * mink (b i) y := by
+  simp only [mink_eq_sum, Finset.sum_mul, Finset.mul_sum]
+  rw [Finset.sum_comm]
+  exact Finset.sum_congr rfl fun i _ => Finset.sum_congr rfl fun l _ => by ring
+
+/-- `_refine_fixed_vectors` replaces `eig`'s basis of the fixed vectors by `b = fixed @ coeffs`:
+a basis of `ker(M − I)` (`utils.kernel`, contract) that is orthogonal for the Minkowski form
+(`eigh` of the restricted form, contract).  If the isometry fixes *any* non-zero vector of the
+closed light cone — every elliptic and parabolic isometry does — one of the basis vectors lies
+in the closed light cone; by `fixedPoint_in_ball` the first reported point is then in the
+closed ball, and it is fixed because every `b i` is.  This is the clause "every point reported
+as a fixed point is fixed by it and lies in the closed ball" for isometries whose fixed vectors
+form a space of any dimension. -/
+theorem refined_basis_in_ball {k : ℕ} (b : Fin k → Fin (n + 1) → K)
+    (horth : ∀ i j, i ≠ j → mink (b i) (b j) = 0) (c : Fin k → K)
+    (hx : mink (fun l => ∑ i, c i * b i l) (fun l => ∑ i, c i * b i l) ≤ 0)
+    (hc : ∃ i, c i ≠ 0) :
+    ∃ i, mink (b i) (b i) ≤ 0 := by
+  by_contra hpos
+  rw [not_exists] at hpos
+  have hpos : ∀ i, 0 < mink (b i) (b i) := fun i => not_le.1 (hpos i)
+  have hexp : mink (fun l => ∑ i, c i * b i l) (fun l => ∑ i, c i * b i l)
+      = ∑ i, c i ^ 2 * mink (b i) (b i) := by
+    rw [mink_sum_left]
+    apply Finset.sum_congr rfl
+    intro i _
+    rw [mink_comm, mink_sum_left, Finset.mul_sum]
+    rw [Finset.sum_eq_single i]
+    · rw [mink_comm]; ring
+    · intro j _ hji; rw [horth j i hji]; ring
+    · intro h; exact absurd (Finset.mem_univ i) h
+  rw [hexp] at hx
+  obtain ⟨i, hi0⟩ := hc
+  have hterm : 0 < c i ^ 2 * mink (b i) (b i) := mul_pos (by positivity) (hpos i)
+  have hsum : 0 < ∑ j, c j ^ 2 * mink (b j) (b j) :=
+    Finset.sum_pos' (fun j _ => mul_nonneg (sq_nonneg _) (hpos j).le) ⟨i, Finset.mem_univ i, hterm⟩
+  linarith
+
+end refine
+
 /-! ## non-vacuity -/
 
 /-- a spacelike normal in `R^{2,1}` -/
